@@ -1901,3 +1901,33 @@ mod tests {
 		}
 	}
 }
+
+#[cfg(feature = "_verif")]
+#[allow(missing_docs)]
+pub mod verif_hooks {
+	use super::*;
+	pub fn u48_write<W: Writer>(v: u64, w: &mut W) -> Result<(), io::Error> {
+		U48(v).write(w)
+	}
+	pub fn u48_read<R: Read>(r: &mut R) -> Result<u64, DecodeError> {
+		Ok(<U48 as Readable>::read(r)?.0)
+	}
+	pub fn hzbd_u16_write<W: Writer>(v: u16, w: &mut W) -> Result<(), io::Error> {
+		HighZeroBytesDroppedBigSize(v).write(w)
+	}
+	pub fn hzbd_u16_read<R: Read>(r: &mut R) -> Result<u16, DecodeError> {
+		Ok(<HighZeroBytesDroppedBigSize<u16> as Readable>::read(r)?.0)
+	}
+	pub fn hzbd_u32_write<W: Writer>(v: u32, w: &mut W) -> Result<(), io::Error> {
+		HighZeroBytesDroppedBigSize(v).write(w)
+	}
+	pub fn hzbd_u32_read<R: Read>(r: &mut R) -> Result<u32, DecodeError> {
+		Ok(<HighZeroBytesDroppedBigSize<u32> as Readable>::read(r)?.0)
+	}
+	pub fn hzbd_u64_write<W: Writer>(v: u64, w: &mut W) -> Result<(), io::Error> {
+		HighZeroBytesDroppedBigSize(v).write(w)
+	}
+	pub fn hzbd_u64_read<R: Read>(r: &mut R) -> Result<u64, DecodeError> {
+		Ok(<HighZeroBytesDroppedBigSize<u64> as Readable>::read(r)?.0)
+	}
+}
